@@ -241,7 +241,8 @@ V(x)     == <<"v", x>>
 KV(k, v) == <<"kv", k, v>>
 KeyErr   == <<"KeyError">>
 
-Init == /\ heap = (Root :> Inner(<<>>, <<>>, Nil))
+EmptyTree == (Root :> Inner(<<>>, <<>>, Nil))
+Init == /\ heap = EmptyTree
         /\ m = EmptyMap
         /\ act = [op |-> "init", k |-> 0, v |-> 0]
         /\ res = [impl |-> OK, abs |-> OK]
@@ -302,14 +303,38 @@ PopItem ==
 
 \* t.clear()
 Clear ==
-  Step((Root :> Inner(<<>>, <<>>, Nil)), EmptyMap, [op |-> "clear", k |-> 0, v |-> 0], OK, OK)
+  Step(EmptyTree, EmptyMap, [op |-> "clear", k |-> 0, v |-> 0], OK, OK)
+
+(* Writes with arguments outside the family's domain.  The key is converted  *)
+(* first, so an unusable key touches nothing.  The value is converted in    *)
+(* the leaf, i.e. after an empty tree has already grown its first (empty)   *)
+(* leaf: the error exit must undo that (BTreeTemplate.c:974-984).           *)
+TypeErr == <<"TypeError">>
+BadKey ==
+  Step(heap, m, [op |-> "badkey", k |-> 0, v |-> 0], TypeErr, TypeErr)
+BadVal(k) ==
+  LET wasEmpty == ImplEmpty(heap)
+      bid   == NewId(heap)
+      grown == IF wasEmpty
+                 THEN Upd(Ext(heap, bid, Leaf(<<>>, <<>>, Nil)), Root, Inner(<<bid>>, <<0>>, bid))
+                 ELSE heap
+      back  == IF wasEmpty /\ "NoRollbackOfGrownTree" \notin Dev THEN EmptyTree ELSE grown
+  IN Step(back, m, [op |-> "badval", k |-> k, v |-> 0], TypeErr, TypeErr)
 
 Next == \/ \E k \in Keys, v \in Vals : SetItem(k, v) \/ InsertU(k, v) \/ SetDefault(k, v)
+        \/ BadKey \/ \E k \in Keys : BadVal(k)
         \/ \E k \in Keys : DelItem(k) \/ Pop(k)
         \/ PopItem \/ Clear
 \* the two structural generators only (every other mutator is a composition
 \* of these as far as the tree shape is concerned)
 NextCore == \E k \in Keys : (\E v \in Vals : SetItem(k, v)) \/ DelItem(k)
+
+\* effective steps only (an insert of an absent key, a delete of a present
+\* one, now and then another mutator): what -simulate walks to get deep trees
+NextEff == \/ \E k \in Keys \ Dom(m), v \in Vals : SetItem(k, v) \/ InsertU(k, v)
+           \/ \E k \in Dom(m) : DelItem(k) \/ Pop(k) \/ (\E v \in Vals : SetItem(k, v))
+           \/ (Dom(m) # {} /\ PopItem)
+SpecEff  == Init /\ [][NextEff]_vars
 
 Spec     == Init /\ [][Next]_vars
 SpecCore == Init /\ [][NextCore]_vars
@@ -323,7 +348,7 @@ LookupOK == \A k \in Keys :
    /\ ImplHas(heap, k) = (k \in Dom(m))
    /\ ImplHas(heap, k) => ImplGet(heap, k) = m[k]
 \* a call that raises leaves the contents alone
-ErrUnchanged == [][res'.abs = KeyErr => m' = m]_vars
+ErrUnchanged == [][res'.abs \in {KeyErr, TypeErr} => (m' = m /\ Render(heap', Root) = Render(heap, Root))]_vars
 
 (* C03: soundness of the structure *)
 Sorted(s) == \A a, b \in 1..Len(s) : a < b => s[a] < s[b]
